@@ -105,6 +105,10 @@ func c03Check(c *caseCtx, g *genReq, d decision) {
 	c.count("evaluations", 1)
 	if !d.OK {
 		c.count("rejected", 1)
+		if methodFailed(d) {
+			// the generated request is in the method's domain: failing inside Evaluate is not "ranking the alternatives"
+			c.violate("method-failed:"+errClass(d.Err), "the method fails on an in-domain request instead of ranking: "+d.Err, M{"request": g.M})
+		}
 		return
 	}
 	ev := d.Trace.Eval
